@@ -14,9 +14,10 @@ class C17(PropBase):
     spec_fn = "spec_c17"
     counts = {"quick": 300, "thorough": 4000}
     rule = ("one harness process per configuration (sample_count_total, interval_ms_total, sample_count, "
-            "interval_ms) from a grid incl. zero, non-dividing and non-tiling values, offered by entity "
-            "(check + reset_global_config, what init_with_config does) and by YAML file "
-            "(init_config_with_yaml); observed: acceptance, the four values read on the initialising thread and "
+            "interval_ms) from a grid incl. zero, non-dividing and non-tiling values, with the metric log on or off, offered by "
+            "entity (check + reset_global_config), by YAML file (init_config_with_yaml) and through the public "
+            "init_with_config after an earlier init_with_config of the defaults; observed: acceptance, after a rejection the "
+            "four values still in effect (the defaults), the four values read on the initialising thread and "
             "on a thread spawned afterwards and on a worker thread that had read the configuration before it was installed, an entry built and exited on each thread (no panic) and the geometry of the "
             "node created there; non-trivial = accepted and different from the default configuration; distinct "
             "= distinct case text")
@@ -47,11 +48,11 @@ class C17(PropBase):
                 ivt = rng.pick([0, 1000, 10000, 10000, 9999, 700])
                 sc = rng.pick([0, 1, 2, 2, 3, 5])
                 iv = rng.pick([0, 1000, 1000, 500, 300, 2000, 20000, 1500])
-            cases.append({"mode": rng.pick([0, 0, 1]), "v": [sct, ivt, sc, iv]})
+            cases.append({"mode": rng.pick([0, 0, 1, 1, 2]), "v": [sct, ivt, sc, iv], "flush": rng.pick([0, 1, 1])})
         return cases
 
     def line(self, c):
-        return " ".join(str(x) for x in [c["mode"]] + c["v"])
+        return " ".join(str(x) for x in [c["mode"]] + c["v"] + [c.get("flush", 1)])
 
     def coq(self, c):
         return "mkSC %d %d %d %d" % tuple(c["v"])
@@ -60,5 +61,5 @@ class C17(PropBase):
         return bool(obs) and obs[0] == 1 and c["v"] != [20, 10000, 2, 1000]
 
     def stats(self, cases, obs):
-        return {"accepted": sum(1 for o in obs if o and o[0] == 1), "rejected": sum(1 for o in obs if o == [0]),
+        return {"accepted": sum(1 for o in obs if o and o[0] == 1), "rejected": sum(1 for o in obs if o and o[0] == 0),
                 "by_yaml": sum(1 for c in cases if c["mode"] == 1)}
